@@ -81,8 +81,9 @@ def plan(tier, seed):
     lengths = list(range(0, 65)) + (BOUNDARY_Q if tier == "quick" else BOUNDARY_T)
     lengths = sorted(set(lengths))
     shards = 16
-    return [{"lengths": lengths[i::shards], "full_variants_upto": 24 if tier == "quick" else 64,
-             "sampled": 10 if tier == "quick" else 40, "case_seed": seed * 1000 + i} for i in range(shards)]
+    reps = 1 if tier == "quick" else 4
+    return [{"lengths": lengths[i::shards], "full_variants_upto": 24 if tier == "quick" else 130,
+             "sampled": 10 if tier == "quick" else 60, "case_seed": seed * 1000 + i + 100 * r} for r in range(reps) for i in range(shards)]
 
 
 def cases(desc):
